@@ -25,7 +25,11 @@ import (
 //	  | error <site> <code> <msg> <acc> <err> <via> | redirect <site> <code|d> <url> <body> <acc> <err>
 //	  | wbytes <site> <hex|nil> <acc> <err> <via> | abort <site> <code> nomsg | abort <site> <code> msg <msg> <acc> <err>
 //	  | adderr <site> | panic <site>            site = 0 … 2k-2 (block of the chain) | E (OnError) | P (OnPanic)
-//	end
+//	end [hc]
+//
+// `end` dispatches the request through Router.ServeHTTP, `end hc` through the second public entry point:
+// a context built by the caller (`c := &rux.Context{}; c.Init(w, req)`) handed to Router.HandleContext(c).
+// Both entry points must leave exactly the same log on the underlying writer (the model is the same).
 type writerEngine struct{}
 
 func init() { register(writerEngine{}) }
@@ -358,7 +362,8 @@ func parseWSite(k int, s string) (site, rank int, ok bool) {
 
 type wSeg struct {
 	acts   []wAct
-	endIdx int // index of the `end` line, -1 if the segment was cut off
+	endIdx int  // index of the `end` line, -1 if the segment was cut off
+	hc     bool // dispatch through Router.HandleContext instead of ServeHTTP
 }
 
 // expectation of the property, accumulated from the actions that actually ran
@@ -590,7 +595,13 @@ func (writerEngine) Run(ops []string) (ans []string, oracle []string) {
 					escaped = true
 				}
 			}()
-			router.ServeHTTP(wrapRec(run.rec, cfg.wkind), req)
+			if seg.hc {
+				c := &rux.Context{}
+				c.Init(wrapRec(run.rec, cfg.wkind), req)
+				router.HandleContext(c)
+			} else {
+				router.ServeHTTP(wrapRec(run.rec, cfg.wkind), req)
+			}
 		}()
 		if run.ctx == nil {
 			oracle = append(oracle, "C08 harness: the first handler of the chain never ran")
@@ -621,11 +632,12 @@ func (writerEngine) Run(ops []string) (ans []string, oracle []string) {
 			router = buildWriterRouter(cfg, &cur)
 			ans[i] = "ok"
 		case "end":
-			if len(f) != 1 {
+			if len(f) != 1 && !(len(f) == 2 && f[1] == "hc") {
 				ans[i] = "bad-op"
 				continue
 			}
 			seg.endIdx = i
+			seg.hc = len(f) == 2
 			flush()
 		default:
 			if len(f) < 2 {
@@ -777,6 +789,13 @@ func (writerEngine) Corpus() []Case {
 		{Ops: []string{"chain 2 GET 0 0 none 0 1 3", "status 0 201 0", "write 1 6869 2 0 1", "flush 1", "write 2 21 1 0 0", "end"}, Tag: "corpus-wkind"},
 		{Ops: []string{"chain 1 GET 0 0 none 0 0 2", "status 0 404 0", "write 0 68656c6c6f 2 1 1", "end"}, Tag: "corpus-wkind-sw"},
 		{Ops: []string{"chain 1 POST 0 0 none 0 0 1", "status 0 202 0", "wbytes 0 6162 2 0 1", "end", "status 0 204 0", "end"}, Tag: "corpus-wkind-rf"},
+		// the second entry point, Router.HandleContext: chains that write nothing (status only, abort, empty chain,
+		// redirect of a POST) still commit exactly once; mixed with ServeHTTP requests on the same router
+		{Ops: []string{"chain 1 GET 0 0 none 0 0", "status 0 204 0", "end hc", "end hc", "status 0 404 2", "end", "abort 0 401 nomsg", "end hc"}, Tag: "corpus-hc-status"},
+		{Ops: []string{"chain 3 POST 0 1 none 1 1", "abort 1 403 nomsg", "adderr 3", "status E 500 0", "end hc", wRedirect("2", "303", "/a", 999, 0), "end hc"}, Tag: "corpus-hc-abort"},
+		// HandleContext with a panicking chain: OnPanic sets the status and writes nothing; without hook it escapes
+		{Ops: []string{"chain 2 GET 1 0 none 1 0", "status 0 201 0", "panic 1", "status P 500 0", "end hc", "write 1 78 1 0 0", "end hc"}, Tag: "corpus-hc-panic"},
+		{Ops: []string{"chain 2 GET 0 0 none 0 1", "status 0 202 0", "panic 1", "end hc", "status 0 202 0", "end hc"}, Tag: "corpus-hc-escape"},
 	}
 }
 
@@ -925,6 +944,7 @@ func (e writerEngine) Gen(r *Rand, tier string) Case {
 	}
 	ops := []string{fmt.Sprintf("chain %d %s %s %s %s %d %d %d", k, meth, b2s(onPanic), b2s(onError), ct, ng, nr, wkind)}
 	nreq := r.PickInt([]int{1, 1, 1, 2, 2, 3})
+	var ends []int // indices of the `end` lines
 	for q := 0; q < nreq; q++ {
 		n := r.PickInt([]int{0, 1, 2, 3, 4, 5, 6, 8, 10, 14})
 		if tier == "thorough" && r.Chance(1, 10) {
@@ -955,7 +975,15 @@ func (e writerEngine) Gen(r *Rand, tier string) Case {
 		for _, a := range acts {
 			ops = append(ops, a.line)
 		}
+		ends = append(ends, len(ops))
 		ops = append(ops, "end")
+	}
+	// entry point per request: a quarter of the requests go through Router.HandleContext (drawn last, so that
+	// the rest of the case is what the same seed generated before this stream existed)
+	for _, i := range ends {
+		if r.Chance(1, 4) {
+			ops[i] = "end hc"
+		}
 	}
 	return Case{Ops: ops, Tag: stream}
 }
